@@ -3,6 +3,27 @@ what counts as a non-trivial case, the theorems, and the classifier that turns a
 into a signature for known_findings.json."""
 
 PROPS = {
+    'C09': {
+        'engines': [('store', 200, 4000, ['-shardsize', '100']), ('sidecar', 200, 4000, ['-propok', 'c10_case', '-shardsize', '100'])],
+        'rule': 'store engine: pairs of distinct assignments (0-2 jobs incl. names with spaces/quotes, 0-3 targets each, 1/25 with 300-2000 targets; '
+                'label values with quotes, backslashes, newlines, tabs, control characters, <>&, U+2028, non-ASCII, empty; both states); the old one '
+                'is acknowledged, then a CHILD PROCESS runs the real UpdateTargets(new) under RLIMIT_FSIZE = N (N in {0, 1, len-1, len, len+10, '
+                'uniform}; SIGXFSZ default or ignored), the parent starts a fresh TargetsManager twice (Load + TargetsInfo) and classifies what it '
+                'resumes against un-crashed reference runs: old / new / other / load error. The model decides from the encoded lengths. '
+                'non-trivial = the write was interrupted (N < encoded length). || sidecar engine: restarts inside generated histories (see C10)',
+        'theorems': 'C09_resume C09_atomic C09_old_or_new C09_next_save C09_resumed_state C09_store_is_last_ack',
+        'trusted_base': ['Model/Store.v: WriteFile = truncate + byte-wise appends (any prefix may survive), Rename atomic: OS contract, assumed',
+                         'the JSON codec is abstract (dec (enc v) = Some v): Go encoding/json both ways, validated differentially on escaping-heavy data',
+                         'tie = child process stopped by a file-size limit at byte N + fresh Load, compared with the model\'s verdict'],
+        'assumptions': ['a killed writer leaves a prefix of what it was writing; rename is atomic; no torn directory entries',
+                        'power-loss reordering without fsync is not modelled (process-level crashes only)',
+                        'the file-size limit makes write(2) fail at byte N (Go handles SIGXFSZ, so both modes end as a failing write); a SIGKILL at the same offset leaves the same files'],
+        'level_text': 'Proof: for every codec with dec . enc = id, every pair of assignments and EVERY number of completed byte-level effects of the save, '
+                      'the next load returns the previous assignment (before the rename) or the new one (after), the store file is untouched until the '
+                      'rename, leftovers never disturb later saves; assignment-level resume theorem (C10 model). Tied by crashing a real child process at '
+                      'chosen byte offsets.',
+        'level_note': 'Trusted: Coq kernel; the file-system effect model (truncate/append/rename); abstract codec; harness classification against reference runs.',
+    },
     'C12': {   'assumptions': [   'every Write on the Prometheus side accepts at least one byte or fails (io.Writer contract); failing writes are outside the '
                        'property',
                        "lines within the parser's 256 KiB limit; gzip decoding is a function applied before the tee (chunks are the decompressed "
@@ -257,6 +278,8 @@ def classify(prop, engine, case):
         if inp.get('Resp') == 'body' and end == 'reset':
             return 'C13-eoflike-reset'
         return '%s-proxy-%s-%s' % (prop, inp.get('Resp'), end)
+    if engine == 'store':
+        return 'C09-store-%s' % (case.get('observed') or {}).get('Seen')
     if engine in ('sidecar', 'stats'):
         return '%s-%s' % (prop, engine)
     if prop == 'C18':
